@@ -602,6 +602,19 @@ def r7_field_values_compare_by_content(ctx, sym):
                           q, sorted(declared) or 'none', ignored),
                       "suppress('runtime', 'x', fields={'location': Location(3)}) also suppresses the feedback located "
                       "on line 5: Location(3) == Location(5)")
+            if own_eq and init is not None:
+                # a hand-written __eq__ is asked about values of other kinds too (a suppression may give a plain line
+                # number, or None): it must answer, not raise
+                from .. import symexec
+                eq_fn = next(st for st in cls.body if isinstance(st, ast.FunctionDef) and st.name == '__eq__')
+                ctx.analysed_function(m, eq_fn)
+                for other, label in ((3, 'an int'), (None, 'None'), ('3', 'a str')):
+                    me = symexec.self_obj(m, q, **{a: None for a in assigned})
+                    fd = symexec.new_fd(sym, m, calls={'isinstance': lambda o, t: False})
+                    got, raised = symexec.run(fd, eq_fn, [other], bound_self=me, what='%s.__eq__' % q)
+                    ctx.check(raised is None, 'R7', 'dataclass-eq:%s.%s:against-%s' % (m.name, q, label), m, eq_fn,
+                              "%s.__eq__ compared with %s raises %s" % (q, label, raised.kind if raised else ''),
+                              "suppress('runtime', 'x', fields={'location': 3}) makes resolve() raise AttributeError")
     ctx.floor('R7', 'dataclasses in pedal.core', n, 1)
 
 
